@@ -32,7 +32,7 @@ def x_cases():
 def all_cases(ctx):
     cs = F.f_unit(5) + F.f_shape() + F.f_bb() + x_cases() + F.reordered(F.f_shape() + F.f_bb())
     cs += F.renamed([c for c in F.f_unit(3, pairs=False)] + F.f_shape()[:4], "escaped")
-    cs += F.f_rand(ctx.seed, 30 if ctx.quick else 300)
+    cs += F.f_rand(ctx.seed, 30 if ctx.quick else 300) + F.f_rand_bb(ctx.seed, 12 if ctx.quick else 100)
     if not ctx.quick:
         cs += [(("lib", n), "lib:" + n) for n in ("c17", "c432", "s27")]
         cs += F.f_small(2)
